@@ -276,6 +276,11 @@ def invalid_name_cases():
     # letters and digits outside ASCII are not name characters; names are at most 255 characters long
     foreign = ['Gr\u00f6\u00dfe', 'caf\u00e9', '\u0394t', 'x\u0663', '\u00e9', 'a\u00aa', 'x\u00b2']
     bad['member'] += foreign + ['a' * 256, 'M\n', 'M\r', 'M\0', '\nM', 'M ']
+    # a colon belongs at the very start of a unique connection name and nowhere else
+    bad['destination'] += ['com.example:svc', 'c:om.example', 'com.example.svc:', 'com.exa:mple.svc', '::1.42', ':1:42.7', ':1.42:']
+    bad['interface'] += ['com.example:svc', ':1.42']
+    bad['error_name'] += ['com.example:Err', ':1.42', 'org.freedesktop.DBus.Error.', 'org.freedesktop.DBus.Error.No-Memory', 'org.freedesktop.DBus.Error.2Big',
+                          'org.freedesktop.DBus.Error.' + 'x' * 240]
     for k_, ok_ in (('interface', 'a.b'), ('error_name', 'a.b'), ('destination', 'a.b'), ('destination', ':1.2'), ('path', '/a')):
         bad[k_] += [ok_ + '\n', ok_ + '\0', ok_ + ' ', '\n' + ok_]
     bad['interface'] += ['a.' + x for x in foreign] + [x + '.b' for x in foreign] + ['a.' + 'b' * 254]
